@@ -1,0 +1,5 @@
+//! Verification hooks (compiled only with `--cfg maidsafe_safe_network_verif`).
+//! Pass-through access to the crate-private `Node` for the external correspondence harness in /verif.
+//! Nothing here changes behaviour; with the cfg off this module does not exist.
+
+pub use crate::node::verif as node;
